@@ -52,6 +52,10 @@ FAULTS = {
     # the SAME test as a healthy one, unusable in another context (handled specially: always placed in its own context)
     "same-test-bad-params-elsewhere": ("qartod", "gross_range_test", {"fail_span": [0, 1, 2]}, None),
     "same-test-missing-params-elsewhere": ("qartod", "spike_test", {"method": "nope"}, None),
+    # failing entries whose own parameters are objects (a test that cannot run may be configured with anything)
+    "raise-with-object-params": ("qartod", "vf_raise_test", {"kind": "ValueError", "note": {1, 2}, "where": __import__("pathlib").Path("/x"),
+                                                             "s": __import__("pandas").Series([1.0]), "r": range(3)}, None),
+    "climatology-object-needs-time": ("qartod", "climatology_test", {"config": "CLIMOBJ"}, "no-time"),
 }
 
 
@@ -158,6 +162,11 @@ def run(ctx) -> None:
                                 injected.append((fn, p))
                                 continue
                             entry = FAULTS[fn][:3]
+                            if entry[2].get("config") == "CLIMOBJ":
+                                import ioos_qc.qartod as _q
+                                co = _q.ClimatologyConfig()
+                                co.add(tspan=[1, 12], period="month", vspan=[0, 5000])
+                                entry = (entry[0], entry[1], {"config": co})
                             if fn.startswith("same-test-"):
                                 # its own context with its own window, listed before or after the healthy contexts
                                 wx = (tb.secs[0] - 50 - k, tb.secs[0] - 40) if not tb.with_time else rng.choice(
